@@ -22,6 +22,7 @@ import (
 )
 
 type InstInfo struct {
+	verif   string
 	dir     string
 	root    string
 	pkgs    []string
@@ -304,7 +305,7 @@ func prepareInst(repo, verif, tier, prop string) (*InstInfo, error) {
 	if err != nil {
 		return nil, err
 	}
-	ii := &InstInfo{root: root, dir: filepath.Join(root, "mod")}
+	ii := &InstInfo{root: root, dir: filepath.Join(root, "mod"), verif: verif}
 	fail := func(format string, args ...interface{}) (*InstInfo, error) {
 		os.RemoveAll(root)
 		return nil, fmt.Errorf(format, args...)
@@ -508,7 +509,7 @@ func (ii *InstInfo) addContracts(p *Program, cs *ContractSet, prop string) error
 	}
 	if !have {
 		cs.Spec = append(cs.Spec, "thriftbin.smt2")
-		if err := p.spec.load(filepath.Join("/verif", "spec", "thriftbin.smt2")); err != nil {
+		if err := p.spec.load(filepath.Join(ii.verif, "spec", "thriftbin.smt2")); err != nil {
 			return err
 		}
 	}
